@@ -175,6 +175,9 @@ fn enumerate_files(path: &PathBuf) -> Result<Vec<PathBuf>, Vec<Diagnostic>> {
                 Ok(entry) => Some(entry.path()),
                 Err(_) => None,
             })
+            // A sub-directory is not one of the files in the directory. This
+            // follows symbolic links so a link to a file is a file.
+            .filter(|path| path.is_file())
             .collect();
         return Ok(paths);
     }
